@@ -12,6 +12,7 @@ Definition swop_tags (o : swop) : list N :=
   | StreamWrite incr flat writes layouts _ r _ =>
       [520 + N.min 5 (N.of_nat (length writes)); (match flat with [] => 0 | _ => 530 end);
        (if r =? 0 then 0 else 540 + r)]
+  | SCompactAny c _ => [60 + N.of_nat (c_this c)]
   end.
 
 Definition run_case (c : case) : bool * list N :=
